@@ -144,14 +144,56 @@ KWONLY_SRC = REORDERED_SRC.replace("verif_reord", "verif_kwonly").replace(
     "def verif_kwonly(delta, R, baseline=0, contact_point=0, E=3e3):",
     "def verif_kwonly(delta, *, E, R, contact_point=0, baseline=0):")
 
+#: a chain of expressions (stiff depends on E_red depends on E), and a
+#: model function that lists the dependent parameter first
+CHAIN_SRC = '''
+import lmfit
+import numpy as np
+
+
+def get_parameter_defaults():
+    params = lmfit.Parameters()
+    params.add("E", value=3e3, min=0)
+    params.add("nu", value=0.5, vary=False)
+    params.add("R", value=10e-6, min=0, vary=False)
+    params.add("E_red", expr="E/(1-nu**2)")
+    params.add("stiff", expr="4/3*E_red*sqrt(R)")
+    params.add("contact_point", value=0)
+    params.add("baseline", value=0)
+    return params
+
+
+def verif_chain(delta, stiff, E_red, E, nu, R, contact_point=0, baseline=0):
+    """paraboloid written with a derived stiffness"""
+    root = contact_point - delta
+    pos = root > 0
+    out = np.zeros_like(delta, dtype=float)
+    out[pos] = stiff * root[pos] ** 1.5
+    return out + baseline
+
+
+model_doc = verif_chain.__doc__
+model_func = verif_chain
+model_key = "verif_chain"
+model_name = "verif chained expressions"
+parameter_keys = ["E", "nu", "R", "E_red", "stiff", "contact_point",
+                  "baseline"]
+parameter_names = ["Young's Modulus", "Poisson's Ratio", "Tip Radius",
+                   "Reduced Modulus", "Stiffness", "Contact Point",
+                   "Force Baseline"]
+parameter_units = ["Pa", "", "m", "Pa", "Pa m^0.5", "m", "N"]
+valid_axes_x = ["tip position"]
+valid_axes_y = ["force"]
+'''
+
 HARNESS_MODELS = {"verif_order": ORDER_SENSITIVE_SRC, "verif_anc": ANC_SRC,
                   "verif_expr": EXPR_SRC, "verif_reord": REORDERED_SRC,
-                  "verif_kwonly": KWONLY_SRC}
+                  "verif_kwonly": KWONLY_SRC, "verif_chain": CHAIN_SRC}
 MODULI = {"hertz_para": ["E"], "hertz_cone": ["E"], "hertz_pyr3s": ["E"],
           "sneddon_spher_approx": ["E"], "sneddon_spher": ["E"],
           "power_layer_clifford_2009": ["E_S", "E_L"],
           "verif_order": ["E"], "verif_anc": ["E"], "verif_expr": ["E"],
-          "verif_reord": ["E"], "verif_kwonly": ["E"]}
+          "verif_reord": ["E"], "verif_kwonly": ["E"], "verif_chain": ["E"]}
 PLUGIN = "sneddon_spher"
 
 
